@@ -391,6 +391,19 @@ def runC17 (t : Tier) : Emit Unit := do
     emit "C17" (muxCase { period := 40, ops := ops } true "version-wrap")
   runHistories "C17" t true (if t.quick then 10 else 100) 50 false
   runWalk "C17" t
+  -- a WriteData whose table emission fails (PCR PID not among the streams / PMT too large for a packet) writes nothing and
+  -- leaves the tables due: the next WriteData that can emit them does, before its PES — at the start and when the period
+  -- comes round
+  for period in [1, 3, 40] do
+    let mk (n : Nat) : Gen (List MuxOp) := genList n (do let d ← genData 0x100 false; pure (MuxOp.data { d with pes := { d.pes with data := d.pes.data.take 30 } }))
+    let a ← liftGen (mk 1); let b ← liftGen (mk (period + 1)); let c ← liftGen (mk 2)
+    let ops : List MuxOp := [.add { elementaryPID := 0x100, streamType := 0x1b }, .setPCR 0x555] ++ a ++ [.setPCR 0x100] ++ b
+      ++ [.setPCR 0x555] ++ c ++ [.setPCR 0x100] ++ c
+    emit "C17" (muxCase { period := period, ops := ops } true "tables-failing-inside-writedata-stay-due")
+    let fat ← liftGen (genList 9 (do let body ← randBytes 20; pure ({ tag := 0x80, length := 20, userDefined := body } : Descriptor)))
+    let ops2 : List MuxOp := [.add { elementaryPID := 0x100, streamType := 0x1b }, .setPCR 0x100, .add { elementaryPID := 0x101, elementaryStreamDescriptors := fat, streamType := 0x06 }]
+      ++ a ++ [.remove 0x101] ++ b
+    emit "C17" (muxCase { period := period, ops := ops2 } true "tables-failing-inside-writedata-stay-due")
   -- a muxer created without the period option: the default period (40 WriteData calls) applies
   let mut dops : List MuxOp := [.add { elementaryPID := 0x100, streamType := 0x1b }, .setPCR 0x100]
   for _ in [0:85] do
